@@ -210,11 +210,13 @@ def adjudicate_lookup(check, units, j, ob):
     if 'RelatedUnitSystem' in names:
         body += '    (void)PhQ::RelatedUnitSystem(e);\n'
     if 'ConvertInPlace' in names:
-        body += '    for (int k = %d; k <= %d; ++k) { double x = 1.5; PhQ::ConvertInPlace(x, e, static_cast<%s>(k)); }\n' % (lo, hi, E)
+        body += ('    for (int k = %d; k <= %d; ++k) { double x = 1.5; PhQ::ConvertInPlace(x, e, static_cast<%s>(k));\n'
+                 '      std::vector<double> none; PhQ::ConvertInPlace(none, e, static_cast<%s>(k)); std::vector<double> some{1.5, -2.5, 3.5}; PhQ::ConvertInPlace(some, e, static_cast<%s>(k));\n'
+                 '      std::array<double, 3> arr{1.5, -2.5, 3.5}; PhQ::ConvertInPlace(arr, e, static_cast<%s>(k)); }\n') % (lo, hi, E, E, E, E)
     body += '  }\n'
     if 'ConsistentUnit' in names:
         body += '  for (int s = 0; s <= 3; ++s) { std::printf("system %%d\\n", s); std::fflush(stdout); (void)PhQ::ConsistentUnit<%s>(static_cast<PhQ::UnitSystem>(s)); }\n' % E
-    cpp = '// built with -fsanitize=address,undefined\n#define _GLIBCXX_DEBUG 1\n#define _GLIBCXX_ASSERTIONS 1\n#include <%s>\n#include <PhQ/Unit.hpp>\n#include <PhQ/UnitSystem.hpp>\n#include <cstdio>\nint main() {\n%s  std::printf("done\\n");\n  return 0;\n}\n' % (header_of(en), body)
+    cpp = '// built with -fsanitize=address,undefined\n#define _GLIBCXX_DEBUG 1\n#define _GLIBCXX_ASSERTIONS 1\n#include <%s>\n#include <PhQ/Unit.hpp>\n#include <PhQ/UnitSystem.hpp>\n#include <cstdio>\n#include <vector>\n#include <array>\nint main() {\n%s  std::printf("done\\n");\n  return 0;\n}\n' % (header_of(en), body)
     rec = {'property': 'C20', 'obligation': ob.name, 'function': ob.function, 'source': ob.loc, 'verifier_output': ob.detail, 'cpp': cpp}
     confirmed = False
     r, err = replay.build_and_run(cpp, os.path.join(check.work, 'replay'), 'r_' + re.sub(r'\W+', '_', ob.name), sanitize=True)
